@@ -7,19 +7,11 @@ VIEW View
 INVARIANT Protocol
 INVARIANT InitWellFormed
 INVARIANT MaskSound
-INVARIANT LegalNeverInvalid
 INVARIANT MidHasMove
-INVARIANT InvalidNoEffect
-INVARIANT AllInvalidChangesNothing
 INVARIANT FeasibleAlways
 INVARIANT CompletionIsSolution
 INVARIANT PhysOK
-INVARIANT Conservation
-INVARIANT Total
-INVARIANT LowerIdYields
-INVARIANT UncontestedMoves
-INVARIANT RewardRange
-INVARIANT DoneIsAbsorbing
 INVARIANT TimeLimitExact
 INVARIANT ObsAgrees
+INVARIANT TransitionsOK
 CHECK_DEADLOCK FALSE
